@@ -80,7 +80,11 @@ pair[0](2)
             from ex
     result = yield \\
         from gen
-    return result, value
+    again = (yield
+             from gen)
+    third = [value, (yield
+        from make)]
+    return result, value, again, third
 ''',
     'bindings-inside-expressions': '''def scan(count, limit, second, rows):
     if (n := count) > limit:
@@ -128,7 +132,7 @@ print('REPRODUCED: inserting the cursor changed the analysis' if list(got[1]) !=
 
 @harness(['C12'], 'supp.assistant.assist [cursor inside and at the end of every name read and attribute access: transparency of the mark]',
          bounded='5 programs (functions with every kind of control flow and parameters, a class hierarchy with instance attributes, closures / '
-                 'globals / lambda, bindings made inside expressions: walrus in tests, operands and comprehensions, with items, tuple targets; `raise ... from` / `yield from` broken before `from`) x every name read (cursor after the first character, in the middle, at the end) and every attribute access '
+                 'globals / lambda, bindings made inside expressions: walrus in tests, operands and comprehensions, with items, tuple targets; `raise ... from` / `yield from` broken before `from`, after a backslash and inside brackets) x every name read (cursor after the first character, in the middle, at the end) and every attribute access '
                  '(cursor after the dot, after the first character, at the end)')
 def mark_transparency(run):
     """BOUNDED whole-pipeline stand-in: proposals == what the unmarked analysis makes visible at the cursor (names_at for a bare name, the
